@@ -20,3 +20,5 @@ def run(ctx, rep):
     more.rule_kernel_columns(mod, rep)   # symmetric mode runs the same update kernels: C01/C02 are part of C16's statement
     from ..rules import more5
     more5.rule_transpose(mod, rep)
+    from ..rules import more6 as _m6
+    _m6.rule_pivot_column(mod, rep)
